@@ -2,6 +2,8 @@
 """Print the prompt for an independent mutant-writing agent for property Cnn (property text only)."""
 import json, sys
 pid = sys.argv[1]
+VARIANTS = sys.argv[2] if len(sys.argv) > 2 else "ab"
+va, vb = VARIANTS[0], VARIANTS[1]
 for l in open('/verif/properties.jsonl'):
     p = json.loads(l)
     if p['id'] == pid:
@@ -15,12 +17,12 @@ Property {pid} of paramiko ("{p['title']}"):
   Must hold for: {p['quantifier']['text']}
   Relevant files (hint): {', '.join(p['anchors']['files'])}
 
-Task: produce TWO different, independent changes (variant a and variant b) to the library code under /tmp/seed-{pid}/paramiko/ – each one breaks the property above, while the code still imports and the ENTIRE existing test-suite still passes:
+Task: produce TWO different, independent changes (variant {va} and variant {vb}) to the library code under /tmp/seed-{pid}/paramiko/ – each one breaks the property above, while the code still imports and the ENTIRE existing test-suite still passes:
     cd /tmp/seed-{pid} && /venv/bin/python -m pytest -q -p no:cacheprovider --timeout=900     (expect: 534 passed, 26 skipped)
 Each change must be REALISTIC (the kind of slip a maintainer could make in a refactoring or "optimisation": an off-by-one, a dropped or reordered check, a lock released too early, a flag not reset, a cursor advanced before a reservation, a comparison that is too weak, state shared that should be per-object, ...) and SUBTLE: it must need something specific to manifest – a particular thread interleaving, a fault/crash/short read at a particular point, a multi-step sequence of operations, an unusual-but-legal input, or two cooperating sites that each look fine alone – NOT something that ordinary use exposes at once. The two variants should touch different code sites / mechanisms. Keep each patch small (a few lines).
 
 For each variant write a demonstration: a standalone script run as  `cd /tmp/seed-{pid} && PYTHONPATH=/tmp/seed-{pid} /venv/bin/python demo_<v>.py`  that exits 1 (printing what went wrong) when the property is broken and exits 0 when it holds. It must exit 1 with your change applied and exit 0 on the unchanged tree (verify both; for races use deterministic forcing such as events/monkeypatched hooks at the racy point, not sleeps-and-hope, so the demo is reliable). No network; in-memory sockets/socketpairs/loopback only.
 
-Deliverables (create directory /tmp/seed-out/{pid}/): patch_a.diff and patch_b.diff (each `git diff` of ONLY that variant against HEAD), demo_a.py, demo_b.py, and meta.json = {{"property": "{pid}", "variants": {{"a": {{"summary": "...", "needs_to_manifest": "...", "files": [...], "suite_result": "534 passed ...", "demo_fails_with_patch": true, "demo_passes_without": true}}, "b": {{...}}}}}}.
+Deliverables (create directory /tmp/seed-out/{pid}/): patch_{va}.diff and patch_{vb}.diff (each `git diff` of ONLY that variant against HEAD), demo_{va}.py, demo_{vb}.py, and meta_{va}{vb}.json = {{"property": "{pid}", "variants": {{"{va}": {{"summary": "...", "needs_to_manifest": "...", "files": [...], "suite_result": "534 passed ...", "demo_fails_with_patch": true, "demo_passes_without": true}}, "{vb}": {{...}}}}}}.
 NEVER use `git stash` (the stash is shared between all worktrees of /repo and other people work there too): to get a clean tree use `git diff > /tmp/seed-out/{pid}/wip.diff; git checkout -- .` and `git apply` to restore. When finished remove your worktree: git -C /repo worktree remove --force /tmp/seed-{pid}. Be economical: read only the code you need. The machine is shared (16 cores, other jobs running): the full suite takes 2-5 minutes; run it once per variant at the end (use single test files while iterating).
 Final answer: 5-10 lines summarising both variants and confirming the suite and demo results.""")
